@@ -44,7 +44,8 @@ func (l *Lz4) Compress(data []byte) ([]byte, error) {
 }
 
 func (l *Lz4) Decompress(in []byte) ([]byte, error) {
-	out := make([]byte, 100*len(in))
+	// a block decodes to at most 255 times its size (each extra length byte stands for 255 bytes)
+	out := make([]byte, 255*len(in))
 	n, err := lz4.UncompressBlock(in, out)
 	if err != nil {
 		return nil, err
